@@ -153,58 +153,108 @@ let first_diff (want : string list) (got : string list) : string =
 let has_big (es : entry_c list) = List.exists (fun e -> not (fields_small e.e_payload)) es
 
 (* calls recorded by the reflection side-car are appended by the harness as  sidecar=<n> *)
-let strip_sidecar (obs : string) : string * bool =
+let strip_last (prefix : string) (obs : string) : string * string option =
+  let pl = String.length prefix in
   match List.rev (split_blank obs) with
-  | last :: rest when String.length last > 8 && String.sub last 0 8 = "sidecar=" -> (String.concat " " (List.rev rest), true)
-  | _ -> (obs, false)
+  | last :: rest when String.length last >= pl && String.sub last 0 pl = prefix ->
+      (String.concat " " (List.rev rest), Some (String.sub last pl (String.length last - pl)))
+  | _ -> (obs, None)
 
 let strip_r s = if String.length s > 0 && s.[String.length s - 1] = 'r' then String.sub s 0 (String.length s - 1) else s
 
+(* trailing options of a case: rm=<meta> (reflect_metadata), fl=<plan> (the target's answers: read back
+   from the observation, not needed here) *)
+let case_rm (opts : string list) : gmeta =
+  List.fold_left (fun acc o ->
+    if String.length o >= 3 && String.sub o 0 3 = "rm=" then parse_meta (String.sub o 3 (String.length o - 3)) else acc) [] opts
+let has_faults (opts : string list) = List.exists (fun o -> String.length o >= 3 && String.sub o 0 3 = "fl=") opts
+
+let rec take n l = if n <= 0 then [] else match l with [] -> [] | x :: r -> x :: take (n - 1) r
+let rec drop n l = if n <= 0 then l else match l with [] -> [] | _ :: r -> drop (n - 1) r
+
+(* the connection policy the dial options of MakeGRPCConnect give (Gen/GrpcDialGen.v); options outside
+   the model: the bridge obligation fails; the replay goes on with grpc-go's default *)
+let policy : policy = match dial_policy gen_dial_options with Some p -> p | None -> no_retry
+
+(* the target as observed: its answer to the i-th call it received (arrival order), provided that call
+   is the one asked about; any other status otherwise (the mismatch is reported on the call itself) *)
+let target_of (observed : (string * string) list) : msg_c sent list -> msg_c sent -> n =
+  let arr = Array.of_list observed in
+  fun hist s ->
+    let i = List.length hist in
+    if i < Array.length arr && fst arr.(i) = call_key s then n_of_string (snd arr.(i)) else n_of_int 2
+
+(* outcomes + sample codes -> items  code;call  with the status the target gave to that call *)
+let render_shots target (shots : msg_c outcome list list) (codes : n list list) : string list list =
+  let hist = ref [] in
+  let rec one os cs = match os, cs with
+    | o :: os', c :: cs' ->
+        let it = (match o with
+          | Sent s ->
+              let st = target !hist s in
+              hist := !hist @ [s];
+              string_of_n c ^ ";" ^ call_key s ^ "/" ^ timeout_s s.s_timeout ^ "/" ^ string_of_n st
+          | _ -> string_of_n c ^ ";-") in
+        it :: one os' cs'
+    | _ -> [] in
+  let rec all ss css = match ss, css with
+    | os :: ss', cs :: css' -> let x = one os cs in x :: all ss' css'
+    | _ -> [] in
+  all shots codes
+
+let refl_of (evs : msg_c wevent list) : string =
+  match List.filter_map (fun e -> match e with WReflect md -> Some (render_md md) | WCall _ -> None) evs with
+  | [] -> "none"
+  | l -> String.concat "+" (List.sort_uniq compare l)
+
 let rec predict (c : string) (obs : string) : string * string * bool =
-  let (obs0, sidecar) = strip_sidecar obs in
-  if sidecar then begin
+  let (obs0, sidecar) = strip_last "sidecar=" obs in
+  if sidecar <> None then begin
     (* the specification: every call is received by the TARGET; judge the rest of the line as usual,
        the verdict is the side-car finding *)
     let (p, _, nt) = predict c obs0 in
     (p, "BAD:" ^ (List.hd (split_blank c)) ^ ":calls-received-by-the-reflection-side-car", nt)
   end else
+  let (obs_main, refl_obs) = strip_last "refl=" obs in
+  let refl_obs = match refl_obs with Some r -> r | None -> "missing" in
   match split_blank c with
-  | "json" :: mode :: _shared :: _clients :: ninst :: tmo :: _n :: entries ->
-      let es = List.map parse_entry entries in
+  | "json" :: mode :: _shared :: _clients :: ninst :: tmo :: n :: rest ->
+      let n = int_of_string n in
+      let es = List.map parse_entry (take n rest) in
+      let opts = drop n rest in
+      let rm = case_rm opts in
       let timeout = ns_of_ms tmo in
       let mode = strip_r mode in
+      let ninst = nat_of_int (int_of_string ninst) in
       if mode = "d" then begin
-        let items = split_blank obs in
-        let calls = observed_calls (List.concat_map (fun it -> match String.split_on_char ';' it with [_; cs] -> String.split_on_char '&' cs | _ -> []) items) in
-        let respond = respond_of calls in
-        let line rs = String.concat " " (List.map (fun r -> render_outcome respond r.r_code r.r_out) rs) in
-        let m = json_model shortest_dec grpc_code respond (nat_of_int (int_of_string ninst)) timeout es in
-        let sp = json_spec grpc_code respond timeout es in
-        let item r = render_outcome respond r.r_code r.r_out in
-        let want = List.map item sp and modl = List.map item m in
-        let ok = (String.concat " " want = obs) in
+        let items = split_blank obs_main in
+        let observed = observed_calls (List.concat_map (fun it -> match String.split_on_char ';' it with [_; cs] -> String.split_on_char '&' cs | _ -> []) items) in
+        let target = target_of observed in
+        let render (evs, rs) =
+          let its = List.concat (render_shots target [List.map (fun r -> r.r_out) rs] [List.map (fun r -> r.r_code) rs]) in
+          (its, refl_of evs) in
+        let line (its, refl) = String.concat " " its ^ " refl=" ^ refl in
+        let modl = render (json_session shortest_dec grpc_code target policy ninst timeout rm es) in
+        let want = render (json_session_spec grpc_code target (fun p -> p) timeout rm es) in
+        (* the specification with the known float64 family factored out *)
+        let hyb = render (json_session_spec grpc_code target (reencode_guarded shortest_dec) timeout rm es) in
+        let ok = (line want = obs) in
         let why = if ok then "" else begin
-          if List.length items <> List.length want then "json:" ^ first_diff want items
+          if snd hyb <> refl_obs then "json:reflection-metadata"
+          else if List.length items <> List.length (fst hyb) then "json:" ^ first_diff (fst hyb) items
           else begin
-            (* per entry: a difference explained by the float64 round trip of an integer beyond 2^53
-               (the code-shaped model agrees with the observation) belongs to that family; any other
-               difference is reported first *)
-            let rec go i es w mo ob other big =
-              match es, w, mo, ob with
-              | e :: es', x :: w', y :: mo', o :: ob' ->
-                  if x = o then go (i + 1) es' w' mo' ob' other big
-                  else if y = o && not (fields_small e.e_payload) then go (i + 1) es' w' mo' ob' other true
-                  else if other = "" then go (i + 1) es' w' mo' ob' (Printf.sprintf "%s@%d" (diff_component x o) i) big
-                  else go (i + 1) es' w' mo' ob' other big
-              | _ -> (other, big) in
-            let (other, big) = go 0 es want modl items "" false in
+            let rec go i w o = match w, o with
+              | x :: w', y :: o' -> if x = y then go (i + 1) w' o' else Printf.sprintf "%s@%d" (diff_component x y) i
+              | _ -> "" in
+            let other = go 0 (fst hyb) items in
             if other <> "" then "json:" ^ other
-            else if big then "json:message-int64-precision(float64-round-trip)" else "json:?"
+            else if has_big es then "json:message-int64-precision(float64-round-trip)" else "json:?"
           end
         end in
-        (line m, verdict ok why, List.length es > 1 || es <> [] && (List.hd es).e_meta <> [])
+        (line modl, verdict ok why, List.length es > 1 || es <> [] && (List.hd es).e_meta <> [] || rm <> [] || has_faults opts)
       end else begin
-        match split_blank obs with
+        let refl_want = refl_of (fst (warm_up { wc_timeout = timeout; wc_reflect_meta = rm } example_table)) in
+        match split_blank obs_main with
         | [res; samples; callstr] ->
             let calls = observed_calls (split '|' callstr) in
             let respond = respond_of calls in
@@ -212,25 +262,27 @@ let rec predict (c : string) (obs : string) : string * string * bool =
               let ss = List.sort compare (List.map (fun r -> hex_of_bytes r.r_tag ^ ":" ^ string_of_n r.r_code) rs) in
               let cs = List.sort compare (List.filter_map (fun r -> match r.r_out with Sent s -> Some (render_call respond s) | _ -> None) rs) in
               "ok " ^ (if ss = [] then "-" else String.concat "," ss) ^ " " ^ (if cs = [] then "-" else String.concat "|" cs) in
-            let m = json_model shortest_dec grpc_code respond (nat_of_int (int_of_string ninst)) timeout es in
+            let m = json_model shortest_dec grpc_code respond ninst timeout es in
             let sp = json_spec grpc_code respond timeout es in
-            let ok = (line sp = obs) in
+            let ok = (line sp = obs_main) && refl_want = refl_obs in
             (* the specification with the known float64 family factored out: entries carrying an
                integer beyond 2^53 take the code-shaped model's result *)
             let hybrid = List.map2 (fun e (a, b) -> if fields_small e.e_payload then a else b) es (List.combine sp m) in
             let why =
               if ok then ""
-              else if line hybrid = obs then "json:message-int64-precision(float64-round-trip)"
+              else if refl_want <> refl_obs then "json-engine:reflection-metadata"
+              else if line hybrid = obs_main then "json:message-int64-precision(float64-round-trip)"
               else if res <> "ok" then "json-engine:run-" ^ res
               else begin
                 match split_blank (line hybrid) with
                 | [_; ws; wc] -> if ws <> samples then "json-engine:samples" else if wc <> callstr then "json-engine:calls" else "json-engine"
                 | _ -> "json-engine"
               end in
-            (line m, verdict ok why, List.length es > 1)
+            (line m ^ " refl=" ^ refl_want, verdict ok why, List.length es > 1)
         | _ -> ("?", "BAD:json-engine:observation-shape:" ^ obs, false)
       end
-  | ["scen"; ninst; tmo; order; users; defs; scens] ->
+  | "scen" :: ninst :: tmo :: order :: users :: defs :: scens :: opts ->
+      let rm = case_rm opts in
       let order = List.map (fun s -> nat_of_int (int_of_string s)) (split ',' order) in
       let users = List.map (fun u -> match String.split_on_char ':' u with [t; i] -> (bytes_of_field t, bytes_of_field i) | _ -> failwith "user") (split ',' users) in
       let defs = List.map (fun d -> match String.split_on_char ';' d with
@@ -242,18 +294,20 @@ let rec predict (c : string) (obs : string) : string * string * bool =
         | [name; idx] -> (bytes_of_field name, List.map (fun i -> nat_of_int (int_of_string i)) (split '.' idx))
         | _ -> failwith "scen") (split '|' scens) in
       let timeout = ns_of_ms tmo in
-      let shots = split '#' obs in
+      let shots = split '#' obs_main in
       let items = List.concat_map (split '|') shots in
-      let calls = observed_calls (List.filter_map (fun it -> match String.split_on_char ';' it with [_; cs] -> Some cs | _ -> None) items) in
-      let respond = respond_of calls in
-      let render (res : outs list) : string list =
-        List.map (fun os -> if os = [] then "none" else String.concat "|" (List.map (fun o -> render_outcome respond (out_code grpc_code respond o) o) os)) res in
+      let observed = observed_calls (List.filter_map (fun it -> match String.split_on_char ';' it with [_; cs] -> Some cs | _ -> None) items) in
+      let target = target_of observed in
+      let render (res : outs list) (codes : n list list) : string list =
+        List.map (fun its -> if its = [] then "none" else String.concat "|" its) (render_shots target res codes) in
       let h0 = heap_of defs in
       let (h1, m) = scen_model users defs scens h0 (sguns_of (nat_of_int (int_of_string (strip_r ninst))) timeout) O O order in
       let sp = scen_spec users defs scens timeout h0 O O order in
-      let want = render sp in
-      let ok = (String.concat "#" want = obs) in
-      let why = if ok then "" else begin
+      let refl_want = refl_of (scen_warm_up timeout rm) in
+      let want = render sp (scen_codes_spec grpc_code target sp) in
+      let modl = render m (snd (scen_codes grpc_code target policy m)) in
+      let ok = (String.concat "#" want = obs_main) && refl_want = refl_obs in
+      let why = if ok then "" else if refl_want <> refl_obs then "scen:shot0:reflection-metadata" else begin
         (* locate the first differing step *)
         let rec go i w g = match w, g with
           | [], [] -> "same"
@@ -264,7 +318,8 @@ let rec predict (c : string) (obs : string) : string * string * bool =
         "scen:" ^ go 0 want shots
       end in
       let heap_note = if h1 = h0 then "" else " heap-changed" in
-      (String.concat "#" (render m) ^ heap_note, verdict ok why, List.length order > 1 && List.exists (fun d -> d.cd_meta <> []) defs)
+      (String.concat "#" modl ^ heap_note ^ " refl=" ^ refl_want, verdict ok why,
+       List.length order > 1 && List.exists (fun d -> d.cd_meta <> []) defs || rm <> [] || has_faults opts)
   | _ -> ("unknown-case", "BAD:unknown-case", false)
 
 let () = run_cases predict
